@@ -631,19 +631,31 @@ class C06(Base):
                 gaps_ = [rp_[j + 1] - rp_[j] for j in range(t["i"], t["i"] + t["k"] - 1)]
                 asym = max([abs(gaps_[j] - gaps_[-1 - j]) for j in range(len(gaps_) // 2)] or [1e9])
                 if asym < 400:
-                    # the window equals its own mirror image to within a few hundred bp per gap: both strands fit
-                    sig = f"near-palindrome|{mode}"
                     rep.probes["near_palindromic_windows"] += 1
                 if not found:
                     rep.add([O.V("missing", f"{mode}: planted query {qid} (k={t['k']}, reverse={t['reverse']}) has no "
                                             f"record in {where}", sig)], k)
                     continue
                 n, i, rec = found[0]
+                truth = [tuple(p) for p in t["pairs"]]
+                wrong_place = int(rec["RefContigID"]) != t["ref"] or (rec["Orientation"] == "-") != t["reverse"] or rec["pairs"] != truth
+                if wrong_place:
+                    # Ambiguous input?  COMA did build the true placement as a candidate (exactly the true pairs on the true
+                    # reference and strand), but another candidate that also pairs all k labels without a gap scored at least as
+                    # high: the reference holds a second near-copy of this window (its mirror image inside a palindromic stretch).
+                    refm, qrym = maps.refs.get(O._int(rec["RefContigID"])), maps.queries[qid]
+                    cands_ = [c for t_ in out.get("tapped", []) if t_["task"][0] == 1 for c in t_["cands"] if c["qry"] == qid]
+                    true_c = [c for c in cands_ if c["ref"] == t["ref"] and c["row"]["rev"] == t["reverse"]
+                              and O.row_pairs(c["row"]) == truth]
+                    if true_c and refm is not None and len(rec["pairs"]) == t["k"] and rec["HitEnum"] == f"{t['k']}M" \
+                            and not O.matching_problems(rec["pairs"], rec["Orientation"], len(refm["pos"]), len(qrym["pos"])) \
+                            and max(c["row"]["conf"] for c in true_c) <= float(rec["Confidence"]) + 0.005:
+                        sig = f"alternative-copy|{mode}"
+                        rep.probes["alternative_copy_placements"] += 1
                 if int(rec["RefContigID"]) != t["ref"] or (rec["Orientation"] == "-") != t["reverse"]:
                     rep.add([O.V("placement", f"{mode}: planted query {qid} reported on ref {rec['RefContigID']} strand "
                                               f"{rec['Orientation']}", sig, record=rec["line"], file=n)], k)
                     continue
-                truth = [tuple(p) for p in t["pairs"]]
                 if rec["pairs"] != truth:
                     rep.add([O.V("pairs", f"{mode}: planted query {qid}: reported {len(rec['pairs'])} pairs "
                                           f"{rec['pairs'][:3]}..{rec['pairs'][-2:]}, true {len(truth)} pairs "
